@@ -16,7 +16,7 @@ LEVEL = "fault_enumeration"
 RULE = (
     "Generated fault matrix on the real loky backend: n_jobs 2..4, histories of 2-5 consecutive calls on one Parallel "
     "object (with and without a with-block; batch_size / pre_dispatch drawn) with 0-2 faults; fault = victims 1..n_jobs x "
-    "kind {SIGKILL, SIGTERM, SIGSEGV (null dereference), os.abort, os._exit(0), os._exit(1)} x instant {while the worker "
+    "kind {SIGKILL, SIGTERM, SIGSEGV (null dereference), os.abort, os._exit(0), os._exit(1), SIGBUS, SIGUSR1, two real-time signals without a name in signal.Signals} x instant {while the worker "
     "unpickles the task arguments, at task start, mid-task after a drawn sleep, while pickling the result, while sending a "
     "5-30 MB result (parent-side kill after a drawn delay), while the caller thread is still dispatching (input generator that stalls "
     "50-1000 ms before a drawn item, or pre_dispatch='all' with 30-80 tasks), idle between two calls (kill the pids reported by the previous "
@@ -33,7 +33,7 @@ ASSUMPTIONS = [
 ]
 SHARDS = {"quick": 12, "thorough": 16}
 TIMEOUT = {"quick": 900, "thorough": 5400}
-KINDS = ["SIGKILL", "SIGTERM", "SIGSEGV", "abort", "exit0", "exit1"]
+KINDS = ["SIGKILL", "SIGTERM", "SIGSEGV", "abort", "exit0", "exit1", "SIGBUS", "SIGUSR1", "SIGRT+1", "SIGRT+9"]
 INSTANTS = ["unpickle", "start", "mid", "pickle_result", "send", "idle_before", "startup"]
 WATCHDOG = 30.0
 
@@ -133,7 +133,8 @@ def _alive(pid):
 
 
 def _kill(pid, kind):
-    sig = {"SIGKILL": signal.SIGKILL, "SIGTERM": signal.SIGTERM, "SIGSEGV": signal.SIGSEGV, "abort": signal.SIGABRT}.get(kind, signal.SIGKILL)
+    sig = {"SIGKILL": signal.SIGKILL, "SIGTERM": signal.SIGTERM, "SIGSEGV": signal.SIGSEGV, "abort": signal.SIGABRT,
+           "SIGBUS": signal.SIGBUS, "SIGUSR1": signal.SIGUSR1, "SIGRT+1": signal.SIGRTMIN + 1, "SIGRT+9": signal.SIGRTMIN + 9}.get(kind, signal.SIGKILL)
     try:
         os.kill(pid, sig)
     except OSError:
